@@ -8,6 +8,8 @@ ASSUME = [
     "device content and the arguments only (the claims name no reader-internal state), and INV-reader is preserved also on Err and after an injected device error; "
     "independence from history follows by induction over operations (reasoning step outside the solver)",
     "top-level operations (Blob::read, extract_xml) start with an absolute seek_physical: decided from an ARBITRARY reader cursor, results depend on the device and the descriptor only",
+    "additionally explicit histories from PagedReader::new: 3 x (seek_physical; read) with symbolic positions/lengths over any device of 1..3 pages; every operation's result must be the "
+    "history-free function of (device, position, length) - this also covers reader state that a later source change might add",
     "QueueReader/point iterators: see C03/C05 obligations; descriptors and xml() are immutable after open (not checked)",
 ]
 
@@ -15,7 +17,7 @@ ASSUME = [
 def run(ctx):
     from mirsym import spec_blob, spec_page, spec_reader
     tier = ctx["tier"]
-    scen = spec_page.reader_misc_scenarios() + spec_page.reader_scenarios() + spec_page.reader_short_and_fault_scenarios(tier)[1:] + spec_blob.scenarios(tier)[2:3] + spec_reader.scenarios(tier)[3:4]
+    scen = spec_page.reader_history_scenarios(tier) + spec_page.reader_misc_scenarios() + spec_page.reader_scenarios() + spec_page.reader_short_and_fault_scenarios(tier)[1:] + spec_blob.scenarios(tier)[2:3] + spec_reader.scenarios(tier)[3:4]
     obls, samples = mlane.run_scenarios("C17", "O17", scen, ctx, "arbitrary INV-reader states over devices of 1..8 pages, reads <= 3000 B")
     return dict(obligations=obls, functions=FUNCTIONS, assumptions=ASSUME, samples=samples,
                 extra={"engine": "mirsym (MIR -> z3 5.1)", "mir_regenerated_from": "/repo working tree"})
